@@ -4,6 +4,7 @@ import (
 	"fmt"
 	"go/token"
 	"go/types"
+	"sync"
 
 	"bmsym/smt"
 
@@ -299,8 +300,11 @@ func (in *Interp) loadForeign(name string, t types.Type) Value {
 
 // errType fabricates distinct named types for opaque error values.
 var errTypes = map[string]types.Type{}
+var errTypesMu sync.Mutex
 
 func errType(name string) types.Type {
+	errTypesMu.Lock()
+	defer errTypesMu.Unlock()
 	if t, ok := errTypes[name]; ok {
 		return t
 	}
